@@ -17,6 +17,41 @@ type Env struct {
 	pkg    *types.Package
 	depth  int
 	inOld  bool
+	quants []*patCollector
+}
+
+// patCollector gathers candidate trigger terms for one quantifier: element accesses whose index is a bound variable.
+type patCollector struct {
+	vars  map[string]bool // SMT names of the bound variables
+	terms map[string][]string // bound var -> terms indexed by it
+}
+
+func (e *Env) recordPattern(idx string, term string) {
+	for _, q := range e.quants {
+		if q.vars[idx] {
+			dup := false
+			for _, t := range q.terms[idx] {
+				if t == term {
+					dup = true
+				}
+			}
+			if !dup {
+				q.terms[idx] = append(q.terms[idx], term)
+			}
+		}
+	}
+}
+
+// elemAt is the specification-level element access s[i]; it is an uninterpreted function (so that it can serve
+// as a trigger) defined by an axiom as the heap lookup.
+func (x *Exec) elemAt(heapName string, heap string, s string, idx string, elemSort string) string {
+	f := "uf_at_" + mangle(elemSort)
+	hs := x.varSort(heapName)
+	if _, ok := x.vc.funs[f]; !ok {
+		x.vc.declFun(f, []string{hs, SSlice, SInt}, elemSort)
+		x.vc.axiom(fmt.Sprintf("(forall ((h %s) (s Slice) (i Int)) (! (= (%s h s i) (select (select h (s.arr s)) (+ (s.off s) i))) :pattern ((%s h s i))))", hs, f, f))
+	}
+	return app(f, heap, s, idx)
 }
 
 func (e *Env) withBound(name string, t Term) *Env {
@@ -204,35 +239,7 @@ func (x *Exec) tr(e *Expr, env *Env) (Term, error) {
 		}
 		return Term{S: mkIte(c, a.S, b.S), Sort: a.Sort, T: a.T}, nil
 	case "forall", "exists":
-		ne := env
-		var decls []string
-		var guards []string
-		for _, b := range e.Binders {
-			t, err := x.prog.resolveType(b.Type, env.pkg)
-			if err != nil {
-				return Term{}, err
-			}
-			x.vc.fresh++
-			name := fmt.Sprintf("q_%s_%d", mangle(b.Name), x.vc.fresh)
-			s := x.ss.sortOf(t)
-			decls = append(decls, "("+name+" "+s+")")
-			ne = ne.withBound(b.Name, Term{S: name, Sort: s, T: t})
-			if s == SSlice {
-				guards = append(guards, wfSlice(name))
-			}
-			if isUnsigned(t) {
-				guards = append(guards, app(">=", name, "0"))
-			}
-		}
-		body, err := x.trBool(e.Args[0], ne)
-		if err != nil {
-			return Term{}, err
-		}
-		g := mkAnd(guards...)
-		if e.Op == "forall" {
-			return tBool("(forall (" + strings.Join(decls, " ") + ") " + mkImp(g, body) + ")"), nil
-		}
-		return tBool("(exists (" + strings.Join(decls, " ") + ") " + mkAnd(g, body) + ")"), nil
+		return x.trQuant(e, env)
 	case "complit":
 		t, err := x.prog.resolveType(e.Type, env.pkg)
 		if err != nil {
@@ -454,7 +461,10 @@ func (x *Exec) trIndex(e *Expr, env *Env) (Term, error) {
 	switch u := types.Unalias(xv.T).Underlying().(type) {
 	case *types.Slice:
 		h := x.heapElem(u.Elem())
-		return Term{S: app("select", app("select", x.get(env.state(), h).S, app("s.arr", xv.S)), plus(app("s.off", xv.S), idx.S)), Sort: x.ss.sortOf(u.Elem()), T: u.Elem()}, nil
+		es := x.ss.sortOf(u.Elem())
+		t := x.elemAt(h, x.get(env.state(), h).S, xv.S, idx.S, es)
+		env.recordPattern(idx.S, t)
+		return Term{S: t, Sort: es, T: u.Elem()}, nil
 	case *types.Array:
 		return Term{S: app("select", xv.S, idx.S), Sort: x.ss.sortOf(u.Elem()), T: u.Elem()}, nil
 	case *types.Basic:
@@ -933,4 +943,135 @@ func (x *Exec) trMethod(recv Term, name string, args []Term, env *Env) (Term, er
 		}
 	}
 	return Term{}, fmt.Errorf("method %s is not available in specifications (receiver sort %s)", name, recv.Sort)
+}
+
+
+// abstractIndices rewrites X[e] (e mentions a bound variable but is not just a variable) into X[j] with a fresh
+// bound variable j and the guard j == e, so that triggers contain no arithmetic (the rewrite Dafny applies).
+func abstractIndices(e *Expr, vars map[string]bool, counter *int, binders *[]Binder, guards *[]*Expr) *Expr {
+	if e == nil {
+		return nil
+	}
+	if e.Op == "forall" || e.Op == "exists" {
+		return e
+	}
+	ne := *e
+	ne.Args = make([]*Expr, len(e.Args))
+	for i, a := range e.Args {
+		ne.Args[i] = abstractIndices(a, vars, counter, binders, guards)
+	}
+	if ne.Op == "index" && ne.Args[1] != nil {
+		ix := ne.Args[1]
+		for ix.Op == "paren" {
+			ix = ix.Args[0]
+		}
+		if !(ix.Op == "ident" && vars[ix.Name]) && mentions(ix, vars) {
+			*counter++
+			name := fmt.Sprintf("ix$%d", *counter)
+			*binders = append(*binders, Binder{Name: name, Type: &TypeExpr{Kind: "name", Name: "int"}})
+			*guards = append(*guards, &Expr{Op: "binary", Name: "==", Args: []*Expr{{Op: "ident", Name: name}, ix}})
+			ne.Args[1] = &Expr{Op: "ident", Name: name}
+		}
+	}
+	return &ne
+}
+
+func mentions(e *Expr, vars map[string]bool) bool {
+	if e == nil {
+		return false
+	}
+	if e.Op == "ident" && vars[e.Name] {
+		return true
+	}
+	for _, a := range e.Args {
+		if mentions(a, vars) {
+			return true
+		}
+	}
+	return false
+}
+
+func (x *Exec) trQuant(e *Expr, env *Env) (Term, error) {
+	vars := map[string]bool{}
+	for _, b := range e.Binders {
+		vars[b.Name] = true
+	}
+	binders := append([]Binder{}, e.Binders...)
+	var guardsE []*Expr
+	counter := 0
+	body := abstractIndices(e.Args[0], vars, &counter, &binders, &guardsE)
+	ne := env
+	var decls []string
+	var guards []string
+	pc := &patCollector{vars: map[string]bool{}, terms: map[string][]string{}}
+	var smtNames []string
+	for _, b := range binders {
+		t, err := x.prog.resolveType(b.Type, env.pkg)
+		if err != nil {
+			return Term{}, err
+		}
+		x.vc.fresh++
+		name := fmt.Sprintf("q_%s_%d", mangle(b.Name), x.vc.fresh)
+		s := x.ss.sortOf(t)
+		decls = append(decls, "("+name+" "+s+")")
+		ne = ne.withBound(b.Name, Term{S: name, Sort: s, T: t})
+		pc.vars[name] = true
+		smtNames = append(smtNames, name)
+		if s == SSlice {
+			guards = append(guards, wfSlice(name))
+		}
+		if isUnsigned(t) {
+			guards = append(guards, app(">=", name, "0"))
+		}
+	}
+	ne2 := *ne
+	ne2.quants = append(append([]*patCollector{}, env.quants...), pc)
+	for _, g := range guardsE {
+		f, err := x.trBool(g, &ne2)
+		if err != nil {
+			return Term{}, err
+		}
+		guards = append(guards, f)
+	}
+	bodyS, err := x.trBool(body, &ne2)
+	if err != nil {
+		return Term{}, err
+	}
+	g := mkAnd(guards...)
+	if e.Op == "exists" {
+		return tBool("(exists (" + strings.Join(decls, " ") + ") " + mkAnd(g, bodyS) + ")"), nil
+	}
+	inner := mkImp(g, bodyS)
+	// triggers: one term per bound variable; alternatives when a variable indexes several terms
+	pats := buildPatterns(smtNames, pc.terms)
+	if len(pats) > 0 && inner != "true" {
+		var ps []string
+		for _, p := range pats {
+			ps = append(ps, ":pattern ("+strings.Join(p, " ")+")")
+		}
+		inner = "(! " + inner + " " + strings.Join(ps, " ") + ")"
+	}
+	return tBool("(forall (" + strings.Join(decls, " ") + ") " + inner + ")"), nil
+}
+
+func buildPatterns(vars []string, terms map[string][]string) [][]string {
+	for _, v := range vars {
+		if len(terms[v]) == 0 {
+			return nil // some variable has no trigger term: leave trigger selection to the solver
+		}
+	}
+	pats := [][]string{{}}
+	for _, v := range vars {
+		var next [][]string
+		for _, p := range pats {
+			for _, t := range terms[v] {
+				if len(next) >= 8 {
+					break
+				}
+				next = append(next, append(append([]string{}, p...), t))
+			}
+		}
+		pats = next
+	}
+	return pats
 }
